@@ -864,6 +864,24 @@ class Exec:
             base = Slice(('ptr', x), 0, n, n)
             lo_c = conc(lo) if lo is not None else 0
             hi_c = conc(hi) if hi is not None else n
+            if lo_c is None and hi_c is not None:
+                # symbolic low bound with a small range: fork on its value
+                outs = []
+                for v in range(0, n + 1):
+                    c = lo == bvval(v, lo.size())
+                    if self.feasible(st, c):
+                        s2 = st.clone()
+                        s2.pc.append(c)
+                        f2 = s2.frames[-1]
+                        if v > hi_c:
+                            self.results.append(Result('panic', s2, 'slice bounds out of range at %s' % ins.get('pos')))
+                            continue
+                        f2.regs[ins['name']] = Slice(('ptr', x), v, hi_c - v, n - v)
+                        f2.idx += 1
+                        outs.append(s2)
+                if self.feasible(st, z3.UGT(lo, bvval(n, lo.size()))):
+                    self.results.append(Result('panic', st, 'slice bounds out of range possible at %s' % ins.get('pos')))
+                return outs
             if lo_c is None or hi_c is None:
                 raise Unsupported('symbolic slice bounds on array')
             if not (0 <= lo_c <= hi_c <= n):
